@@ -9,7 +9,7 @@ Program tree (see RunCodec.lean):
 import ast, os, re, sys, unittest
 from harness.core import Prop, some, sx
 
-BASE_NAMES = {0: 'traceback', 1: 'Failed expectation', 2: 'reason', 3: 'foo', 4: 'bar', 5: 'twisted-log', 6: 'béta'}
+BASE_NAMES = {0: 'traceback', 1: 'Failed expectation', 2: 'reason', 3: 'foo', 4: 'bar', 5: 'twisted-log', 6: 'béta', 7: ''}
 NAME_BASE = {v: k for k, v in BASE_NAMES.items()}
 MISMATCH_CLS = ['user', 900, 'failure']      # testtools.matchers.MismatchError (subclass of AssertionError)
 SETUPERR_CLS = ['user', 901, 'exc']          # fixtures.fixture.SetupError
@@ -670,7 +670,7 @@ end TTV.Generated.C01
 
 RAISE_KINDS = [('failure', 14), ('exc', 14), ('skip', 10), ('xfail', 6), ('uxs', 6), ('ki', 9), ('sysexit', 7),
                (['user', 1, 'skip'], 4), (['user', 2, 'exc'], 6), (['user', 3, 'failure'], 4), (['user', 4, 'ki'], 3), ('base', 2)]
-USER_NAMES = [[3], [3], [4], [5], [6], [3, 1], [0], [0, 1], [0, 1, 2], [0, 2], [1], [1, 1], [4, 2]]
+USER_NAMES = [[3], [3], [4], [5], [6], [3, 1], [0], [0, 1], [0, 1, 2], [0, 2], [1], [1, 1], [4, 2], [7], [7, 1]]   # base 7: the empty name
 FLAVOURS = ['ext', 'ext', 'ext', 'tt', 'none_', 'py27', 'py26', 'twisted', 'stream']
 
 
